@@ -73,7 +73,7 @@ class Requester(object):
         self.scheme = scheme
         self.method = method.upper() if method else u'GET'
         self.path = path or u'/'
-        self.qargs = qargs if qargs is not None else dict()
+        self.qargs = dict(qargs) if qargs is not None else dict()  # own copy, build updates it
         self.fragment = fragment
         self.headers = help.Hict(headers) if headers else help.Hict()
         if body and isinstance(body, str):  # use default
@@ -116,7 +116,7 @@ class Requester(object):
         if path is not None:
             self.path = path
         if qargs is not None:
-            self.qargs = qargs
+            self.qargs = dict(qargs)  # own copy, build updates it
         if fragment is not None:
             self.fragment = fragment
         if headers is not None:
